@@ -121,8 +121,9 @@ class Toolkit:
                         ctx.suppressed.append(tag)
                     ctx.holds(rule, f, what + " [accepted alias: %s]" % reason, node=n.ast, engine=engine)
                 else:
+                    via = sorted({(a.a[0].a[1] if a.a[0].k == "attr" else (a.a[0].a[0] if a.a[0].k in ("global", "param") else "call")) if a.k == "call" else a.k for a in keep})
                     ctx.violated(rule, f, what, "returned object's %s may share memory with %s" % (field, ", ".join(roots[:4])),
-                                 node=n.ast, engine=engine)
+                                 node=n.ast, key="alias-via:" + ",".join(via), engine=engine)
             elif fr[0] == "fresh":
                 ctx.holds(rule, f, what, node=n.ast, engine=engine)
             else:
@@ -145,8 +146,8 @@ def public_methods(cls, exclude=()):
 
 def _empty_fact(fa, n):
     """facts `X.size == 0` dominating node n (an array without cells has no content to share)"""
-    for test, truth in fa.cfg.facts_at(n):
-        tm = fa.term(test.ast, test)
-        if tm.k == "cmp" and tm.a[0] == "==" and truth and tm.a[1].k == "attr" and tm.a[1].a[1] == "size" \
+    from .guards import facts_at as _facts
+    for tm, truth, test in _facts(fa, n):
+        if tm.k == "cmp" and ((tm.a[0] == "==" and truth) or (tm.a[0] == "!=" and not truth)) and tm.a[1].k == "attr" and tm.a[1].a[1] == "size" \
                 and tm.a[2].k == "const" and tm.a[2].a[0] == 0:
             yield True
